@@ -103,8 +103,14 @@ def _strip_vis(part):
     return part
 
 
-def scan_source(text, file, structs, enums):
+_alias_re = re.compile(r'\btype\s+([A-Za-z_][A-Za-z0-9_]*)\s*=\s*([^;]+);')
+
+
+def scan_source(text, file, structs, enums, aliases=None):
     src = strip_comments(text)
+    if aliases is not None:
+        for m in _alias_re.finditer(src):
+            aliases.setdefault(m.group(1), ' '.join(m.group(2).split()))
     for m in _item_re.finditer(src):
         kind, name = m.group(1), m.group(2)
         i = _skip_ws(src, m.end())
@@ -156,6 +162,7 @@ def scan_source(text, file, structs, enums):
                 continue
             end = match_close(src, i)
             variants = []
+            vtypes = []
             next_discr = 0
             for part in split_top(src[i + 1:end]):
                 part = _strip_attrs(part)
@@ -163,7 +170,7 @@ def scan_source(text, file, structs, enums):
                     continue
                 vm = re.match(r'([A-Za-z_][A-Za-z0-9_]*)\s*(.*)$', part, re.S)
                 vname, rest = vm.group(1), vm.group(2).strip()
-                fnames, nfields = None, 0
+                fnames, nfields, ftys = None, 0, []
                 if rest.startswith('{'):
                     e2 = match_close(rest, 0)
                     fnames = []
@@ -171,11 +178,13 @@ def scan_source(text, file, structs, enums):
                         fp = _strip_vis(_strip_attrs(fp))
                         if fp:
                             fnames.append(fp.split(':')[0].strip())
+                            ftys.append(' '.join(fp.split(':', 1)[1].split()))
                     nfields = len(fnames)
                     rest = rest[e2 + 1:].strip()
                 elif rest.startswith('('):
                     e2 = match_close(rest, 0)
-                    nfields = len([p for p in split_top(rest[1:e2]) if p.strip()])
+                    ftys = [' '.join(_strip_vis(_strip_attrs(p)).split()) for p in split_top(rest[1:e2]) if p.strip()]
+                    nfields = len(ftys)
                     rest = rest[e2 + 1:].strip()
                 if rest.startswith('='):
                     try:
@@ -183,14 +192,18 @@ def scan_source(text, file, structs, enums):
                     except ValueError:
                         pass
                 variants.append((vname, next_discr, fnames, nfields))
+                vtypes.append(ftys)
                 next_discr += 1
-            enums.setdefault(name, []).append(EnumDef(name, variants, file, generics))
+            ed = EnumDef(name, variants, file, generics)
+            ed.vtypes = vtypes
+            enums.setdefault(name, []).append(ed)
 
 
 class Layouts:
     def __init__(self):
         self.structs = {}
         self.enums = {}
+        self.aliases = {}
         # std types used by aggregates
         self.enums['Option'] = [EnumDef('Option', [('None', 0, None, 0), ('Some', 1, None, 1)], '<std>', ['T'])]
         self.enums['Result'] = [EnumDef('Result', [('Ok', 0, None, 1), ('Err', 1, None, 1)], '<std>', ['T', 'E'])]
@@ -210,10 +223,10 @@ class Layouts:
                 if fn.endswith('.rs'):
                     p = os.path.join(dp, fn)
                     with open(p, encoding='utf-8', errors='replace') as f:
-                        scan_source(f.read(), p, self.structs, self.enums)
+                        scan_source(f.read(), p, self.structs, self.enums, self.aliases)
 
     def scan_text(self, text, file='<text>'):
-        scan_source(text, file, self.structs, self.enums)
+        scan_source(text, file, self.structs, self.enums, self.aliases)
 
     def find_struct(self, name, field_names=None, hint=None):
         cands = self.structs.get(name, [])
@@ -242,3 +255,10 @@ class Layouts:
                 if variant in e.by_name:
                     out.append(e)
         return out
+
+    def resolve_alias(self, t):
+        seen = 0
+        while t in self.aliases and seen < 8:
+            t = self.aliases[t]
+            seen += 1
+        return t
